@@ -31,6 +31,9 @@ func propAssumptions(p string, sp *Specs) []string {
 		"the SMT prelude's byte-string theory (total order, prefix order, convexity of prefix sets, concatenation) holds of []byte under bytes.Compare / bytes.HasPrefix",
 	)
 	for _, n := range sortedKeys(sp.Axioms) {
+		if sp.Axioms[n].Cex {
+			continue
+		}
 		out = append(out, "axiom (trusted, from the documentation): "+n+" — "+sp.Axioms[n].Body.String())
 	}
 	return out
